@@ -349,6 +349,18 @@ func genClose(r rng, seed uint64, id string) *sdl.Program {
 			}
 		}
 	}
+	// two closers whose names differ in a blank at the end only: two components, two definitions
+	if r.p(0.15) {
+		var cl []*sdl.Instance
+		for _, i := range p.Instances {
+			if t := p.TypeByName(i.Type); t.Role == "closer" && !strings.HasPrefix(i.Alias, "a-") {
+				cl = append(cl, i)
+			}
+		}
+		if len(cl) >= 2 {
+			cl[0].Alias, cl[1].Alias = "db", "db "
+		}
+	}
 	// zero-size closers (distinct field-less types may share one address)
 	if r.p(0.2) {
 		for z := 0; z < r.n(2, 3); z++ {
